@@ -43,7 +43,7 @@ func main() {
 			Rule: "httpapi source over a topic of 20..80 unique records, server batch 1..7, 1..4 runners (cases 0..7 enumerate 1..4). " + simpleRule + " Sequence of the single split: the topic in order."},
 		&lib.Prop{ID: "C16", Part: "kinesis-reader", Level: level, NCases: n(40, 1500), Run: kinesisReaderCase,
 			Assumptions: []string{"kinesisfake (in-repo) holds the stream; records carry unique numbers", "the harness plays the source runner: it calls ReadEvents / Checkpoint of the real readers between two reads, like the runner's event loop does at a barrier"},
-			Rule: "streams of 1..4 shards, records written in waves; a chain of 2..5 incarnations of the real Kinesis splitter and 1..3 real SourceReaders: Start(previous checkpoint), seeded numbers of ReadEvents calls per reader (including none: the barrier arrives before a restored split was polled), reader Checkpoint() then splitter Checkpoint(), crash; the last incarnation reads to the end. Every checkpoint carries exactly one position for every split a reader holds; over the chain every written record is emitted exactly once; non-trivial = >=3 incarnations; distinct by (shards, steps)"},
+			Rule:        "streams of 1..4 shards, records written in waves; a chain of 2..5 incarnations of the real Kinesis splitter and 1..3 real SourceReaders: Start(previous checkpoint), seeded numbers of ReadEvents calls per reader (including none: the barrier arrives before a restored split was polled), reader Checkpoint() then splitter Checkpoint(), crash; the last incarnation reads to the end. Every checkpoint carries exactly one position for every split a reader holds; over the chain every written record is emitted exactly once; non-trivial = >=3 incarnations; distinct by (shards, steps)"},
 		&lib.Prop{ID: "C16", Part: "kinesis", Level: level, NCases: n(150, 4000), Run: kinesisCase,
 			Assumptions: []string{
 				"kinesisfake (in-repo) is the ground truth for shard lineage; requests to it are serialised by a proxy because the fake has no locking",
